@@ -52,10 +52,11 @@ Fixpoint strip_named (t : gtype) : gtype := match t with TyNamed _ t' => strip_n
 Definition type_name (t : gtype) : str :=
   match t with TyNamed n _ => n | TyRec n => n | TyStd n => n | _ => [] end.
 
-(* a standard marshaler type looks to reflection like a struct with unexported fields only *)
-Definition hidden_field : finfo * gtype := (mkF (lit "wall"%lit) false false false [] None, TyBool).
 Fixpoint struct_fields (t : gtype) : list (finfo * gtype) :=
-  match t with TyStruct fs => fs | TyNamed _ t => struct_fields t | TyStd _ => [hidden_field] | _ => [] end.
+  match t with TyStruct fs => fs | TyNamed _ t => struct_fields t | _ => [] end.
+(* t.NumField() > 0: a standard marshaler type looks to reflection like a struct with unexported fields only *)
+Definition has_fields (t : gtype) : bool :=
+  match strip_named t with TyStd _ => true | TyStruct (_ :: _) => true | _ => false end.
 
 (** json struct tags *)
 Fixpoint split_on (c : N) (s : str) : list str :=
